@@ -174,7 +174,7 @@ def _custom_col(draw, fam):
 def _deco(draw, fam):
     lossy = fam in ("excel", "sqlite")
     txt = _text(fam == "excel")
-    menu = {"name": 6, "netname": 1, "limit": 5, "tiny": 2, "digits": 3, "col": 7, "geo": 3, "std_type": 3,
+    menu = {"name": 6, "netname": 1, "limit": 7, "tiny": 2, "digits": 3, "col": 9, "geo": 3, "std_type": 3,
             "const_ctrl": 3, "tap_ctrl": 3, "tdi": 2, "characteristic": 1, "group": 3, "measurement": 3, "poly_cost": 2,
             "pwl_cost": 2, "pf_options": 2, "table": 1}
     if lossy:
